@@ -4,7 +4,7 @@ cd "$(dirname "$0")/.." || exit 1
 tier="${1:-quick}"
 out=seeded/SWEEP-$tier.txt
 : > "$out"
-for d in seeded/C*; do
+for d in seeded/C[0-9][0-9]-*; do
   n=$(basename "$d"); prop=${n%%-*}
   res=$(SEEDTEST_LINES=3 tools/seedtest.sh "$PWD/$d/patch.diff" "$prop" "$tier" 2>&1 | grep -v "^KNOWN")
   v=$(echo "$res" | grep -o "verdict=[A-Z-]*" | head -1)
